@@ -566,3 +566,16 @@ package protocol
 //@   ghostset-at-entry poolReset = false
 //@   ghostset after Cookie.Reset: poolReset = (arg0 == c)
 //@   assert before Put: poolReset
+
+// C02: a trailer (or any no-value entry) is filled at most once: an entry that already has a value is left
+// alone, so a second parse of the same block after ErrNeedMore cannot change what the first one stored.
+//@ func updateArgBytes(h, key, value) r
+//@   props C02
+//@   modifies alltype(protocol.argsKV), mem
+//@   allocates
+//@   top-ensures sameSlice(r, h)
+//@   top-ensures forall(k, 0, len(h), !old(h[k].noValue) ==> !h[k].noValue && sameSlice(h[k].value, old(h[k].value)))
+//@   loop 0:
+//@     invariant 0 <= i && i <= n && n == len(h)
+//@     invariant forall(k, 0, len(h), h[k].noValue == old(h[k].noValue) && sameSlice(h[k].value, old(h[k].value)))
+
